@@ -1503,6 +1503,14 @@ struct TupleDriver : DriverBase<TupleDriver<A, B, C>> {
                     ctx.violation(prop, std::string(prefix) + ":apply-reference", "apply returned a copy where the callable returns a reference");
                 }
             }
+            if constexpr (std::is_same_v<A, int> && std::is_same_v<B, int>) {
+                // the target is constructed as T(args...), not T{args...}: BagKey(a, b) is a copies of b
+                auto const bag = etl::make_from_tuple<BagKey>(etl::tuple<int, int>(1 + std::get<0>(model[s]), std::get<1>(model[s])));
+                if (!(bag == BagKey(1 + std::get<0>(model[s]), std::get<1>(model[s])))) {
+                    mismatch = true;
+                    ctx.violation(prop, std::string(prefix) + ":make_from_tuple-initialisation", "make_from_tuple list-initialised its target");
+                }
+            }
             auto ft = etl::make_from_tuple<FromTuple>(ct);
             if (ft.a != std::get<0>(model[s]) || ft.b != std::get<1>(model[s]) || ft.c != std::get<2>(model[s])) {
                 mismatch = true;
@@ -1541,11 +1549,21 @@ struct TupleDriver : DriverBase<TupleDriver<A, B, C>> {
                 }
                 bool eq = false;
                 bool ne = false;
+                uint64_t eqCompares = 0;
                 if (!observe("tuple-equality", [&] {
-                        eq = *obj[x] == *obj[y];
-                        ne = *obj[x] != *obj[y];
+                        uint64_t const c0 = reg().compares;
+                        eq         = *obj[x] == *obj[y];
+                        eqCompares = reg().compares - c0;
+                        ne         = *obj[x] != *obj[y];
                     })) {
                     return;
+                }
+                if constexpr (is_tracked_v<A> && is_tracked_v<C>) {
+                    // like std::tuple: no comparison and no element access after the first pair that differs
+                    if (std::get<0>(model[x]) != std::get<0>(model[y]) && eqCompares != 1) {
+                        ctx.violation("C20", "diff:tuple:equality-short-circuit", "tuple == compared " + std::to_string(eqCompares) + " instrumented elements although the first pair already differs");
+                        return;
+                    }
                 }
                 if (eq != (model[x] == model[y]) || ne != (model[x] != model[y])) {
                     ctx.violation("C20", "diff:tuple:equality", "tuple == / != differs from std::tuple");
